@@ -623,6 +623,19 @@ func (r *vsRun) step(st vsStep) {
 		if err != nil {
 			return
 		}
+		if st.Follow == "pranswer" { // a provisional answer first, then the final one (created in have-local-pranswer)
+			pr := answer
+			pr.Type = SDPTypePranswer
+			if err = p.pc.SetLocalDescription(pr); err != nil {
+				r.logApply(p, "Local", pr, err, "synthetic")
+				return
+			}
+			answer, err = p.pc.CreateAnswer(nil)
+			r.logDesc(p, "CreateAnswer", answer, err, "synthetic")
+			if err != nil {
+				return
+			}
+		}
 		err = p.pc.SetLocalDescription(answer)
 		r.logApply(p, "Local", answer, err, "synthetic")
 		return
